@@ -45,6 +45,7 @@ class Recorder(object):
         self.keep = []
         self.raised = {}      # seq -> [exception objects created by the harness]
         self.created = {}     # seq -> [objects created by harness functions in that request]
+        self.positional = set()   # middleware functions that call next() positionally
         self.lock_free_counter = 0
 
     @property
@@ -131,7 +132,11 @@ class Recorder(object):
             self.ev('<%s %s' % (name, self.label_of(r) if r is not None and not isinstance(r, (str, int, bytes)) else repr(r)))
             return r
         try:
-            r = nxt(**dict((p, self.prov(name, p)) for p in provides))
+            if spec.get('positional') or name in self.positional:
+                # hand the provided values over positionally, in the order of the provides tuple
+                r = nxt(*[self.prov(name, p) for p in provides])
+            else:
+                r = nxt(**dict((p, self.prov(name, p)) for p in provides))
         except Exception as e:
             self.ev('x%s %s' % (name, self.label_of(e)))
             if beh == 'swallow':
